@@ -360,6 +360,18 @@ def h_float_routing(eng):
     P(str(r.units) == "second" and list(r.magnitude) == [-1.0, 15.0, 30.0], "interp:left-right-reach-their-parameters")
     r = np.interp(Qy(np.array([150.0]), "cm"), xp, fp)
     P(list(r.magnitude) == [15.0], "interp:x-converted-to-xp-units")
+    # period= is a length on the x axis: x, xp and period may each come in their own unit
+    # (exactly representable values: 8 m period, sample points 1 m and 5 m)
+    xpp, fpp = Qy(np.array([100.0, 500.0]), "cm"), Qy(np.array([10.0, 50.0]), "s")
+    want = list(np.interp(np.array([3.0, 11.0, -5.0]), np.array([1.0, 5.0]), np.array([10.0, 50.0]), period=8.0))
+    for lab, xq, per in (("x-m:xp-cm:period-cm", Qy(np.array([3.0, 11.0, -5.0]), "m"), Qy(800.0, "cm")), ("x-m:xp-cm:period-m", Qy(np.array([3.0, 11.0, -5.0]), "m"), Qy(8.0, "m")),
+                         ("x-cm:xp-cm:period-m", Qy(np.array([300.0, 1100.0, -500.0]), "cm"), Qy(8.0, "m")), ("x-mm:xp-cm:period-cm", Qy(np.array([3000.0, 11000.0, -5000.0]), "mm"), Qy(800.0, "cm"))):
+        try:
+            r = np.interp(xq, xpp, fpp, period=per)
+            got = (str(r.units), [float(v) for v in r.magnitude])
+        except Exception as ex:  # noqa: BLE001
+            got = type(ex).__name__
+        P(got == ("second", want), f"interp:period:{lab}")
     y = Qy(np.array([np.nan, np.inf, -np.inf, 2.0]), "m")
     r = np.nan_to_num(y, nan=Qy(50.0, "cm"), posinf=Qy(1.0, "km"), neginf=Qy(-2.0, "m"))
     P(list(r.magnitude) == [0.5, 1000.0, -2.0, 2.0] and str(r.units) == "meter", "nan_to_num:all-three")
